@@ -24,13 +24,13 @@ CHECKS = {
  'C15': ('model_checking', E1 + '; complete index query sets', '3.C15'),
  'C16': ('model_checking', 'exhaustive enumeration of finite encoding spaces (every byte string <=3, boundary values x paddings x truncations) vs arithmetic definitions', '3.C16'),
  'C17': ('exploration', 'exhaustive finite-table comparison of every exported constant against vendored registries, a vendored snapshot of registry-confirmed names that must stay exported, and consistency of every derived map', '3.C17'),
- 'C18': ('exploration', 'bounded-exhaustive differential enumeration against GNU readelf 2.40 with the project\'s documented tolerances: corpus x options, one probe file per description-table value, files from the model generators of the other properties (deviation bound k), line/CFI/dump families', '3.C18'),
+ 'C18': ('exploration', 'bounded-exhaustive differential enumeration against GNU readelf 2.40 with the project\'s documented tolerances: corpus x options, one probe file per description-table value, files from the model generators of the other properties (deviation bound k), line/CFI/dump families; plus all ordered pairs/triples of (option, file) calls in one interpreter against the fresh-interpreter output', '3.C18'),
  'C19': ('fault_enumeration', 'exhaustive fault enumeration (every truncation, every header byte substitution, every field fault and header field-fault pair) with a deterministic work meter', '3.C19'),
  'C20': ('model_checking', E1 + '; every byte-code sequence of length <= 2', '3.C20'),
 }
 TEXT = {
  'C10': 'Every API-call history of length <= 2 over an alphabet derived from the file (natural cursors), every history of the iterator-interleaving family (each iterator suspended after 1 or 2 items x every other event, resumed twice; each pair of iterators stepped alternately), and a breadth-first search over fingerprinted object-graph states with explicit stream scrambling and a foreign-file event, on three model files and the vendored corpus files; every transition is compared with the same event on a fresh object computed in a pristine interpreter.',
- 'C18': 'Every (corpus file, option) pair; one synthesized file per value of every description table; every file the model generators of C01/C03/C04/C07/C08/C09/C13/C14/C15/C20 produce with at most k deviations (k = 1 quick, 2 thorough) and the C05/C06 line/CFI families and a dump family, each compared with GNU readelf under the frozen comparison function of the project. What is outside the envelope is decided mechanically (oracle warns / prints its unknown-value rendering, the clone prints its own, non-ASCII output) and counted. Recorded deviations are listed one by one in known_findings.json.',
+ 'C18': 'Every (corpus file, option) pair; one synthesized file per value of every description table; every file the model generators of C01/C03/C04/C07/C08/C09/C13/C14/C15/C20 produce with at most k deviations (k = 1 quick, 2 thorough) and the C05/C06 line/CFI families and a dump family, each compared with GNU readelf under the frozen comparison function of the project. What is outside the envelope is decided mechanically (oracle warns / prints its unknown-value rendering, the clone prints its own, non-ASCII output) and counted. Recorded deviations are listed one by one in known_findings.json. Space 4: every ordered pair (and triple over a smaller set) of main(option, file) calls over corpus files of different machines executed in one interpreter must print, for the last call, what a fresh interpreter prints (module-global state such as _MACHINE_ARCH).',
  'C19': 'Every truncation length, every substitution of the first 64 bytes, every boundary value of every header / section / segment / dynamic / note / hash / version field, every pair of header field faults, and truncation combined with the extended-numbering escapes, on four synthesized seeds and the vendored corpus files; construction may only raise the ELF error type; the enumeration battery runs on a metering stream (deterministic work bound), under an address-space limit and a wall-clock backstop.',
  'C16': 'Every byte string of length <=3 (x tails, x truncation) through both LEB128 decoders, all boundary values at every padding and truncation, 24-bit and fixed-width integers, strings 0..300, blocks, initial length: complete finite products, so a pass is a statement about every input in those spaces, not a sample.',
  'C17': 'Every exported (table,name,value) pair whose name a registry defines is compared; the space is finite and enumerated completely.',
@@ -74,7 +74,7 @@ def main():
         'engines': [{'name': 'mcx', 'path': '/verif/mcx', 'serves_properties': [c['property_id'] for c in checks],
                      'kind_free_text': 'home-made explicit exploration engines in Python run directly on the implementation: E1 deviation-bounded choice-point explorer (mcx/core.py), E2 explicit-state history explorer (mcx/history.py), E3 finite enumerators; reference models in mcx/ref'}],
         'checks': checks,
-        'notes': 'All checks: cwd=/verif, honour VERIF_SEED / VERIF_TIER / VERIF_REPO; exit 0 ok, 1 + VIOLATION lines, 2 harness error. Known findings: known_findings.json (open C18 deviations, each keyed by probe / generator label; fixed: list of the fix: commits). Thorough-tier evidence of the last full run: evidence/thorough/. Detection record: mutants/RESULTS.md (hand-written) and seeded/README.md (108 independently written changes).',
+        'notes': 'All checks: cwd=/verif, honour VERIF_SEED / VERIF_TIER / VERIF_REPO; exit 0 ok, 1 + VIOLATION lines, 2 harness error. Known findings: known_findings.json (open C18 deviations, each keyed by probe / generator label; fixed: list of the fix: commits). Thorough-tier evidence of the last full run: evidence/thorough/. Detection record: mutants/RESULTS.md (hand-written) and seeded/README.md (independently written changes, all detected).',
         'not_applicable': na,
     }
     with open(os.path.join(ROOT, 'MANIFEST.json'), 'w') as f:
